@@ -164,9 +164,16 @@ class Guard:
         if not self.active:
             return self
         self.ev = os.path.join(self.root, "evidence", self.pid + ".json")
-        self.ev_old = open(self.ev, "rb").read() if os.path.exists(self.ev) else None
-        self.rp_old = {p: open(p, "rb").read() for p in glob.glob(os.path.join(self.root, "replays", self.pid + "-*.json"))}
+        self.ev_old = (open(self.ev, "rb").read(), os.stat(self.ev)) if os.path.exists(self.ev) else None
+        self.rp_old = {p: (open(p, "rb").read(), os.stat(p)) for p in glob.glob(os.path.join(self.root, "replays", self.pid + "-*.json"))}
         return self
+
+    @staticmethod
+    def put(path, old):
+        data, st = old
+        with open(path, "wb") as f:
+            f.write(data)
+        os.utime(path, ns=(st.st_atime_ns, st.st_mtime_ns))
 
     def __exit__(self, *exc):
         if not self.active:
@@ -175,12 +182,15 @@ class Guard:
             if os.path.exists(self.ev):
                 os.remove(self.ev)
         else:
-            open(self.ev, "wb").write(self.ev_old)
+            self.put(self.ev, self.ev_old)
         for p in glob.glob(os.path.join(self.root, "replays", self.pid + "-*.json")):
             if p in self.rp_old:
-                open(p, "wb").write(self.rp_old[p])
+                self.put(p, self.rp_old[p])
             else:
                 os.remove(p)
+        for p in self.rp_old:
+            if not os.path.exists(p):
+                self.put(p, self.rp_old[p])
         return False
 
 
@@ -259,8 +269,8 @@ def yn(v):
 def write_md(results, meta, baselines):
     L = ["# Self-test of the framework: mutants of go-perun", "",
          "Generated by `selftest/run.py` (%s). Mutants are applied through a go build overlay; `/repo` is never modified." % meta["when"],
-         "`/repo` HEAD: `%s`. Tier: %s. Checks run %s. Total wall time of the last full run: %s." % (
-             meta["repo_head"], meta["tier"], meta["where"], meta.get("full_run_wall", "n/a")), ""]
+         "`/repo` HEAD: `%s`; framework HEAD when the harnesses were copied: `%s`. Tier: %s. Checks run %s. Total wall time of the last full run: %s." % (
+             meta["repo_head"], meta.get("verif_head", "?"), meta["tier"], meta["where"], meta.get("full_run_wall", "n/a")), ""]
     run_ = [r for r in results if not r.get("pending") and r["status"] == "ok"]
     det = [r for r in run_ if r.get("detected")]
     L.append("**%d mutants run, %d detected by the targeted check, %d not detected; %d pass the repository's own tests (of these %d detected); %d pending (property has no check yet); %d stale.**" % (
@@ -309,9 +319,23 @@ def write_md(results, meta, baselines):
         L.append("| %s | %s | %s | %s | %s | %s | %s | %s | %s |" % (
             r["id"], r["property"], r["what"].replace("|", "\\|"), rts, r.get("check_exit"),
             "yes" if r.get("detected") else "**NO**", s or "-", yn(r.get("replay_reproduces")), r.get("check_wall_s", "-")))
-    notes = os.path.join(HERE, "ANALYSIS.md")
-    if os.path.exists(notes):
-        L += ["", open(notes).read()]
+    spec = json.load(open(os.path.join(HERE, "mutants.json")))
+    ana = {m["id"]: m.get("miss_analysis") for m in spec["mutants"]}
+    missed = [r for r in results if not r.get("pending") and r["status"] == "ok" and "check_exit" in r and not r.get("detected")]
+    L += ["", "## Mutants that are not detected: why, and what the check would need", "",
+          "(Analyses are written by hand after reading the harness of the property - field `miss_analysis` of mutants.json. No harness was edited for the self-test.)", ""]
+    for r in missed:
+        L += ["### %s (%s, %s)" % (r["id"], r["property"], r["file"]), "", "%s. Check: exit %s, %d known finding(s) reported, `%s`" % (
+            r["what"], r.get("check_exit"), r.get("known_findings_reported", 0), r.get("summary", "")), "",
+            ana.get(r["id"]) or "**not analysed yet**", ""]
+    if not missed:
+        L += ["none", ""]
+    L += ["## Mutants dropped as equivalent", ""]
+    for d in spec.get("dropped_as_equivalent", []):
+        L.append("* `%s` (%s): %s" % (d["id"], d["what"], d["why_equivalent"]))
+    L += ["", "## History", ""]
+    for h in spec.get("history", []):
+        L.append("* " + h)
     open(os.path.join(HERE, "RESULTS.md"), "w").write("\n".join(L) + "\n")
 
 
@@ -321,10 +345,17 @@ def main():
     ap.add_argument("--skip-repo-tests", action="store_true")
     ap.add_argument("--repo-tests-only", action="store_true", help="refresh only the repository-test column (keeps the check results of results.json)")
     ap.add_argument("--in-place", action="store_true", help="run ./check in /verif itself (evidence/replays are restored afterwards)")
+    ap.add_argument("--render-only", action="store_true", help="only rewrite RESULTS.md from results.json and mutants.json")
     ap.add_argument("--tier", default="quick")
     ap.add_argument("--rebaseline", action="store_true", help="re-run the baselines even if /repo and the harnesses are unchanged")
     a = ap.parse_args()
     t_all = time.time()
+    if a.render_only:
+        j = json.load(open(os.path.join(HERE, "results.json")))
+        ids = [m["id"] for m in json.load(open(os.path.join(HERE, "mutants.json")))["mutants"]]
+        by = {r["id"]: r for r in j["results"]}
+        write_md([by[i] for i in ids if i in by], j["meta"], j.get("baselines", {}))
+        return
     mutants = json.load(open(os.path.join(HERE, "mutants.json")))["mutants"]
     ids = [m["id"] for m in mutants]
     assert len(ids) == len(set(ids)), "duplicate mutant ids"
@@ -398,7 +429,8 @@ def main():
     wall = time.time() - t_all
     head = subprocess.run(["git", "-C", REPO, "log", "-1", "--format=%h %s"], stdout=subprocess.PIPE, text=True).stdout.strip()
     meta = dict(old_meta)
-    meta.update({"when": time.strftime("%Y-%m-%d %H:%M:%S"), "repo_head": head, "tier": a.tier,
+    vhead = subprocess.run(["git", "-C", VERIF, "log", "-1", "--format=%h %s"], stdout=subprocess.PIPE, text=True).stdout.strip()
+    meta.update({"when": time.strftime("%Y-%m-%d %H:%M:%S"), "repo_head": head, "verif_head": vhead, "tier": a.tier,
                  "where": "in /verif (--in-place)" if a.in_place else "in a private mirror of the framework (.build/selftest/_root)"})
     if not only and not a.skip_repo_tests and not a.repo_tests_only:
         meta["full_run_wall"] = "%.0f s (%.1f min)" % (wall, wall / 60)
